@@ -47,6 +47,7 @@ typedef struct {
 	// accepts it everything else must hold
 	bool maybe_invalid; bool refused;
 	char fdesc[160];
+	bool second_life;   // c06enc: this run uses a handle that was such an encoder before (see do_encode)
 } rt_case;
 
 static uint64_t visit(int d, int v) { return lzma_verif_visit_counts[d][v]; }
@@ -61,6 +62,23 @@ static bool do_encode(rt_case *c, uint64_t idx, vbuf *out, size_t *consumed, cha
 	lzma_ret ret = LZMA_OK;
 	*consumed = c->in.n;
 	vbuf_clear(out);
+	if (c->second_life && (c->ep == EP_EASY || c->ep == EP_STREAM || c->ep == EP_STREAM_MT || c->ep == EP_ALONE || c->ep == EP_RAW)) {
+		// first life of the handle: the same kind of encoder with the same settings compresses a few KiB of other
+		// data and is abandoned (no lzma_end); whatever it learned must not show in the second life's output
+		lzma_mt mt1 = { .flags = 0, .threads = c->threads, .block_size = c->block_size, .timeout = c->timeout, .preset = c->cfg.preset,
+			.filters = c->cfg.from_preset ? NULL : c->cfg.filters, .check = c->cfg.check };
+		lzma_ret fr = c->ep == EP_EASY ? lzma_easy_encoder(&strm, c->cfg.preset, c->cfg.check)
+			: c->ep == EP_STREAM ? lzma_stream_encoder(&strm, c->cfg.filters, c->cfg.check)
+			: c->ep == EP_STREAM_MT ? lzma_stream_encoder_mt(&strm, &mt1)
+			: c->ep == EP_ALONE ? lzma_alone_encoder(&strm, &c->cfg.lzma) : lzma_raw_encoder(&strm, c->cfg.filters);
+		if (fr == LZMA_OK) {
+			uint8_t junk[6000], ob[4096]; uint32_t x = 0x9E3779B9u ^ (uint32_t)c->in.n;
+			for (size_t i = 0; i < sizeof(junk); ++i) { x = x * 1664525u + 1013904223u; junk[i] = (i & 64) ? (uint8_t)(x >> 24) : (uint8_t)"first life "[i % 11]; }
+			strm.next_in = junk; strm.avail_in = sizeof(junk);
+			for (int it = 0; it < 40 && strm.avail_in; ++it) { strm.next_out = ob; strm.avail_out = sizeof(ob); if (lzma_code(&strm, LZMA_RUN) != LZMA_OK) break; }
+			strm.next_in = NULL; strm.avail_in = 0; strm.next_out = NULL; strm.avail_out = 0;
+		}
+	}
 	switch (c->ep) {
 	case EP_EASY:
 		ret = lzma_easy_encoder(&strm, c->cfg.preset, c->cfg.check); break;
@@ -687,12 +705,16 @@ static void c06enc_case(uint64_t idx)
 			static const uint32_t tos[] = { 0, 1, 50 };
 			c.timeout = tos[vrng_below(&r, 3)];
 		}
+		const bool second_life = (v == 1 || v == 4);
+		c.second_life = second_life;
+		if (second_life) hx_count("second_life_variants", 1);
 		ok = do_encode(&c, idx, &other, &consumed2, err, sizeof(err));
+		c.second_life = false;
 		hx_eval(); ++variants;
 		if (!ok) { snprintf(key, sizeof(key), "encode-failed|%s", ep_names[c.ep]); hx_violation("C06", key, idx, "%s under slicing %s threads=%u timeout=%u; cfg=%s size=%zu", err, slice_mode_name(c.enc_plan.mode), c.threads, c.timeout, c.cfg.desc, c.in.n); goto done; }
 		if (other.n != canon.n || (canon.n && memcmp(other.p, canon.p, canon.n))) {
 			size_t at = 0; while (at < other.n && at < canon.n && other.p[at] == canon.p[at]) ++at;
-			snprintf(key, sizeof(key), "encoder-nondeterministic|%s|%s", ep_names[c.ep], (c.ep == EP_STREAM_MT && (c.threads != thr0 || c.timeout != to0)) ? "threads-or-timeout" : "slicing");
+			snprintf(key, sizeof(key), "encoder-nondeterministic|%s|%s", ep_names[c.ep], second_life ? "reused-handle" : (c.ep == EP_STREAM_MT && (c.threads != thr0 || c.timeout != to0)) ? "threads-or-timeout" : "slicing");
 			hx_violation("C06", key, idx, "output differs from canonical at byte %zu (%zu vs %zu bytes): slicing %s/%zu/%zu threads=%u (canonical %u) timeout=%u (canonical %u); cfg=%s size=%zu bs=%" PRIu64 " flush script:%s",
 					at, other.n, canon.n, slice_mode_name(c.enc_plan.mode), c.enc_plan.max_in, c.enc_plan.max_out, c.threads, thr0, c.timeout, to0, c.cfg.desc, c.in.n, c.block_size, fdesc[0] ? fdesc : " none");
 			goto done;
